@@ -138,6 +138,10 @@ type Chip struct {
 	B   Behaviour
 	Rng *core.Rng
 	Ov  Overrides
+	// AAMutate, when set, lets a scenario turn the chip into an adversary on its own INTERNAL AUTHENTICATE answer.
+	AAMutate func(sig, rnd []byte) []byte
+	// CANoSwitch: an impostor that cannot derive the new keys keeps answering under the old session.
+	CANoSwitch bool
 
 	// volatile
 	inLDS    bool
@@ -250,6 +254,9 @@ func (c *Chip) process(raw []byte, ex *Exchange) []byte {
 		ex.PlainData, ex.PlainSW = bytes.Clone(data), status
 		out := session.Wrap(plain.INS, data, status)
 		ex.RespSM = true
+		if c.caPend != nil && c.caPend.ready && c.CANoSwitch {
+			c.caPend = nil
+		}
 		if c.caPend != nil && c.caPend.ready {
 			// CA: new keys take effect after the response under the old session
 			c.sm = c.caPend.sm
